@@ -52,6 +52,23 @@ Invoke(cls, en, dis, casting, op, b, via) ==
 GotObserver(via) == via = "run"
 
 -----------------------------------------------------------------------------
+(* Part C: sync_operations (operations/repo.py).  The sync operation is offered iff the repository
+   (or, for a configured wrapper, its raw repository's config) carries a syncer and that syncer is
+   not disabled; a lazy reference is instantiated on the way.  One sync = _pre_sync, syncer.sync,
+   _post_sync, in that order, returning what the syncer returned.  Named deviation (as the code
+   behaves): when the syncer raises, _post_sync is not called. *)
+SyncLocs == {"repo", "config", "none"}
+SyncOutcomes == {"ret_true", "ret_false", "raise_pk", "raise_other"}
+SyncOffered(loc, disabled) == loc # "none" /\ ~disabled
+SyncRun(loc, disabled, o, via) ==
+  IF ~SyncOffered(loc, disabled) THEN [log |-> <<>>, val |-> "-", res |-> Unsupported(via)]
+  ELSE IF o \in {"ret_true", "ret_false"}
+       THEN [log |-> <<"pre", "sync", "post">>, val |-> o, res |-> [kind |-> "ret", cls |-> "-", wrapped |-> FALSE]]
+       ELSE [log |-> <<"pre", "sync">>, val |-> "-",
+             res |-> IF o = "raise_pk" THEN [kind |-> "raise", cls |-> "OperationError", wrapped |-> TRUE]
+                     ELSE [kind |-> "raise", cls |-> "ValueError", wrapped |-> FALSE]]
+
+-----------------------------------------------------------------------------
 (* Part B *)
 Kinds == {"install", "uninstall", "replace"}
 UserStages == {"add_data", "remove_data", "finalize_data"}
